@@ -21,20 +21,26 @@ KINDS = ("noise", "tones", "ar", "int")
 
 
 @st.composite
-def base_case(draw, rows, dtype="complex"):
+def base_case(draw, rows, dtype="complex", short_nfft=False):
     row = draw(st.sampled_from(rows))
     x = draw(gen.signal(n=draw(gen.lengths(16, 64)), dtype=dtype, kinds=KINDS, noise_levels=(0.1, 1.0)))
     x = est.sanitize(row, x)
     N = x["n"]
     p = draw(est.params(row, N, dtype == "complex"))
-    lo = max(N, est.min_nfft(row, N, p))
-    nfft = draw(gen.nfft_at_least(lo, hi_mult=2))
+    if short_nfft and draw(st.integers(0, 4)) == 4:
+        # NFFT shorter than the record (the FFT-based rows then use the first NFFT samples; the parametric rows
+        # only a coarser grid): modulation by m/NFFT and conjugation still rotate / mirror the estimate
+        lo = max(8, est.min_nfft(row, N, p) if not (row == "Periodogram" or row.startswith("mtm_")) else 8)
+        nfft = draw(st.integers(lo, max(lo, N - 1)))
+    else:
+        lo = max(N, est.min_nfft(row, N, p))
+        nfft = draw(gen.nfft_at_least(lo, hi_mult=2))
     return {"row": row, "x": x, "params": p, "nfft": nfft}
 
 
 @st.composite
 def shift_case(draw):
-    c = draw(base_case(est.ROWS))
+    c = draw(base_case(est.ROWS, short_nfft=True))
     nfft = c["nfft"]
     c["m"] = draw(st.one_of(st.integers(-nfft, nfft), st.sampled_from([1, -1, nfft - 1, nfft // 2, -(nfft // 2)])))
     return c
@@ -62,13 +68,13 @@ def c04_shift(ctx, case):
     # phase reduced modulo NFFT so that the modulation is exact for |m n| large
     y = x * np.exp(2j * np.pi * ((m * n) % nfft) / float(nfft))
     b = est.psd_of(est.build(row, y, p, NFFT=nfft))
-    ctx.cls(row, "odd" if nfft % 2 else "even", "m<0" if m < 0 else "m>0")
+    ctx.cls(row, "odd" if nfft % 2 else "even", "m<0" if m < 0 else "m>0", "NFFT<N" if nfft < len(x) else "NFFT>=N")
     ctx.nontrivial(m % nfft != 0 and two_distinct(x))
     ctx.check(len(a) == nfft and len(b) == nfft, "%s: two-sided estimate has %d / %d values for NFFT=%d" % (row, len(a), len(b), nfft), sig=sig)
     est.compare_psd(ctx, row, b, np.roll(np.real(a), m), "%s: modulation by %d bins (NFFT=%d) is not a rotation by %d" % (row, m, nfft, m), sig=sig)
 
 
-@sub("C04.conj", strategy=base_case(est.ROWS), quick=1600, thorough=30000, shards_quick=4,
+@sub("C04.conj", strategy=base_case(est.ROWS, short_nfft=True), quick=1600, thorough=30000, shards_quick=4,
      doc="complex data: psd[conj x][k] == psd[x][(-k) mod NFFT]")
 def c04_conj(ctx, case):
     row, p, nfft = case["row"], case["params"], case["nfft"]
